@@ -58,7 +58,7 @@ CLAIMED["C06"] = dict(
     design_ref="§4 C06")
 CLAIMED["C07"] = dict(
     category="exploration", engine="enum",
-    text="Bounded-exhaustive pagination grid on the real handlers: page size {1,2,3} x 7 row counts around the page boundaries x 24 query shapes x duplicates; page size {0,100} x {99,100,101,201} rows; every 3-operation sequence of {none, insert below/above the cursor, delete a returned / a not yet returned other row} at the page boundaries with shard_ids placed by raw SQL; 10 malformed/odd token kinds; REST and gRPC. Oracle: concatenated pages = matching stable rows exactly once, |page| <= size, token empty iff last page, malformed token is a 4xx / InvalidArgument-class error.",
+    text="Bounded-exhaustive pagination grid on the real handlers: page size {1,2,3} x 7 row counts around the page boundaries x 24 query shapes x duplicates; page size {0,100} x {99,100,101,201} rows; every 3-operation sequence of {none, insert below/above the cursor, delete a returned / a not yet returned other row} at the page boundaries with shard_ids placed by raw SQL; 10 malformed/odd token kinds; REST and gRPC. Oracle: concatenated pages = matching stable rows exactly once, |page| <= size, token empty iff last page, malformed token is a 4xx / InvalidArgument-class error. Storage-failure family: every SQL statement of one page fetch fails (generic error, sqlite LOCKED / BUSY, cancelled) - the answer is an error or the fault-free page, and continuing afterwards still yields every row once.",
     note="Row order is forced through shard_id (the keyset key); SQLite only.",
     technique="bounded-exhaustive enumeration of (store size, page size, query shape, interleaved write history) against a multiset oracle",
     design_ref="§4 C07")
@@ -85,51 +85,51 @@ CLAIMED["C19"] = dict(
 
 CLAIMED["C08"] = dict(
     category="exploration", engine="enum",
-    text="Bounded-exhaustive transport agreement on the real handlers (REST GET/POST on the status-mirroring and the openapi route, REST batch, gRPC Check via tuple field and flat fields, gRPC BatchCheck): 3 seeded stores x 2 configurations (rewrite-free and OR-only, so the free-running engine is deterministic) x 639 query tuples (subject id / subject set, known and unknown namespaces, adversarial strings) x 7 max-depth values; every batch sequence of length <=3 over an 8-letter alphabet plus batches at the configured maximum and maximum+1. Oracle: each transport's decision equals the engine's CheckIsMember on the mapped tuple; mirror route 200 iff allowed, 403 iff denied; unknown namespace never allowed; batch order/length preserved, batch(B)[i] = single(B[i]), an invalid entry changes no other entry; oversize and non-numeric depth are 4xx.",
+    text="Bounded-exhaustive transport agreement on the real handlers (REST GET/POST on the status-mirroring and the openapi route, REST batch, gRPC Check via tuple field and flat fields, gRPC BatchCheck): 3 seeded stores x 2 configurations (rewrite-free and OR-only, so the free-running engine is deterministic) x 639 query tuples (subject id / subject set, known and unknown namespaces, adversarial strings) x 7 max-depth values; every batch sequence of length <=3 over an 8-letter alphabet plus batches at the configured maximum and maximum+1. Oracle: each transport's decision equals the engine's CheckIsMember on the mapped tuple; mirror route 200 iff allowed, 403 iff denied; unknown namespace never allowed; batch order/length preserved, batch(B)[i] = single(B[i]), an invalid entry changes no other entry; oversize and non-numeric depth are 4xx. Look-alike batch letters (a subject id spelled like a subject set, names containing the separators) so that two different tuples with the same human-readable rendering sit in one batch with different decisions; request-order family: every ordered pair of single checks on one connection / one process (GOMAXPROCS 1) - the second answer must not depend on the first request.",
     note="Configurations restricted to those whose engine outcome is schedule independent (C01 shows singleton outcome sets for them); SQLite only.",
     technique="bounded-exhaustive request enumeration with a differential oracle between transports and the engine",
     design_ref="§4 C08")
 CLAIMED["C13"] = dict(
     category="exploration", engine="enum",
-    text="Every REST route of the read, write and syntax routers (every method on every path, odd paths) and every gRPC method: the full product of core per-field choices {absent, null, empty, valid, wrong JSON type, negative, huge, oversized, array with null element, duplicate keys} plus every single-field (thorough: every pair) deviation, incl. every combination of absent optional protobuf sub-messages - 58k requests quick / 83k thorough - executed in worker subprocesses with a request journal so that a process death is attributed to the request in flight. Oracle: no handler panic, the worker does not die, status < 500 and gRPC code not Internal/Unknown (no storage fault injected), and a rejected request leaves the full table dump unchanged.",
+    text="Every REST route of the read, write and syntax routers (every method on every path, odd paths) and every gRPC method: the full product of core per-field choices {absent, null, empty, valid, wrong JSON type, negative, huge, oversized, array with null element, duplicate keys} plus every single-field (thorough: every pair) deviation, incl. every combination of absent optional protobuf sub-messages - 58k requests quick / 83k thorough - executed in worker subprocesses with a request journal so that a process death is attributed to the request in flight. Oracle: no handler panic, the worker does not die, status < 500 and gRPC code not Internal/Unknown (no storage fault injected), and a rejected request leaves the full table dump unchanged. Syntax-API families include cyclic SubjectSet types, self-referential permissions and forward references.",
     note="SQLite only; RLIMIT_AS 4 GiB per worker; 7 gigabyte-sized bodies skipped in thorough.",
     technique="bounded-exhaustive request-shape enumeration in journalled worker subprocesses with crash/panic/status/state oracles",
     design_ref="§4 C13")
 CLAIMED["C16"] = dict(
     category="exploration", engine="enum",
-    text="182 adversarial strings (empty, separators, escapes, NFC/NFD, RTL, emoji, 4-byte runes, 10 kB, case / trailing-space / ZWJ twins): all 33k ordered pairs for injectivity of the string<->UUID mapping; batches of sizes around 1, 50, 100, 150, 200, 250 (thorough 1..260, 301, 400, 401) x 5 duplicate patterns x {subject id, subject set, mixed} through Mapper.FromTuple->ToTuple, FromQuery->ToQuery (16 shapes) and ToTree, position-wise; end-to-end write -> list / expand / check over REST and gRPC; the reverse-lookup paging loop with explicit page sizes 1..5 x 0..12 ids and 99..201 ids at page sizes 7/50/99/100/101 (through an added, non-replacing method in the persister package).",
+    text="182 adversarial strings (empty, separators, escapes, NFC/NFD, RTL, emoji, 4-byte runes, 10 kB, case / trailing-space / ZWJ twins): all 33k ordered pairs for injectivity of the string<->UUID mapping; batches of sizes around 1, 50, 100, 150, 200, 250 (thorough 1..260, 301, 400, 401) x 5 duplicate patterns x {subject id, subject set, mixed} through Mapper.FromTuple->ToTuple, FromQuery->ToQuery (16 shapes) and ToTree, position-wise; end-to-end write -> list / expand / check over REST and gRPC; the reverse-lookup paging loop with explicit page sizes 1..5 x 0..12 ids and 99..201 ids at page sizes 7/50/99/100/101 (through an added, non-replacing method in the persister package). Write-chunk boundaries: batches of 14999 / 15000 / 15001 / 30001 never-seen names (and 29999..30002 with every name twice; tuple batches of 2999..3001 and 7499..7501 tuples) through the same round trips - the insert of new mappings is chunked by 15000 rows.",
     note="Which id falls on the page boundary at the production page size depends on Go map iteration order and is not controlled (stated in evidence); UUIDv5 collision freedom is taken as given.",
     technique="bounded-exhaustive enumeration of names and batch shapes against round-trip / injectivity oracles",
     design_ref="§4 C16")
 
 CLAIMED["C10"] = dict(
     category="exploration", engine="enum",
-    text="Every boolean expression tree with <=3 binary operators (thorough 4), every placement of `!` (<=2 per path), atoms realised by the four leaf kinds, each rendered in 4 parenthesis layouts (mixed, full, TypeScript-minimal, redundant), plus every `(` / `!(` wrapper string of length <=9: schema.Parse must accept it and the truth table of the parsed rewrite must equal the truth table an independent precedence-climbing evaluator (TypeScript precedence) computes from the rendered token string. Independently the full product of 12 spelling dimensions x 6 layouts on two documents and a comment in every token gap must parse to the source AST.",
+    text="Every boolean expression tree with <=3 binary operators (thorough 4), every placement of `!` (<=2 per path), atoms realised by the four leaf kinds, each rendered in 4 parenthesis layouts (mixed, full, TypeScript-minimal, redundant), plus every `(` / `!(` wrapper string of length <=9: schema.Parse must accept it and the truth table of the parsed rewrite must equal the truth table an independent precedence-climbing evaluator (TypeScript precedence) computes from the rendered token string. Independently the full product of 12 spelling dimensions x 6 layouts on two documents and a comment in every token gap must parse to the source AST. Declaration-order variants: every permutation of namespace declarations and of relation/permission members for the two documents (forward references).",
     note="Only spellings the documented grammar/examples allow are demanded (others are listed in evidence as not demanded); end-to-end agreement of engine decisions with the parsed rewrite is C01's part (strict-mode configurations reach keto as OPL text).",
     technique="bounded-exhaustive program enumeration with a truth-table oracle from an independent evaluator (translation validation of the OPL front end on a finite grammar)",
     design_ref="§4 C10")
 CLAIMED["C11"] = dict(
     category="exploration", engine="enum",
-    text="Every OPL program of a bounded grammar (<=3 namespaces, <=4 declarations, relation types from {N[], SubjectSet<N,r>[], unions}, permissions a leaf, a negated leaf or a binary of leaves): for each accepted program (a) every single-reference replacement by an undeclared name must be rejected with an error at that token, and (b) on a real engine over sqlite configured with the program, every conforming tuple set of <=2 tuples and every query on a declared (namespace, relation), default and strict mode, must not fail with a schema error.",
+    text="Every OPL program of a bounded grammar (<=3 namespaces, <=4 declarations, relation types from {N[], SubjectSet<N,r>[], unions}, permissions a leaf, a negated leaf or a binary of leaves): for each accepted program (a) every single-reference replacement by an undeclared name must be rejected with an error at that token, and (b) on a real engine over sqlite configured with the program, every conforming tuple set of <=2 tuples and every query on a declared (namespace, relation), default and strict mode, must not fail with a schema error. Documentation-shaped programs: namespace-specific relation names, a traversed relation typed as a union of namespaces with heterogeneous parents on one object, several traversals over one relation.",
     note="Engine free-running: only 'a schema error occurred' is judged and a candidate must reproduce 5/5; programs whose permissions recurse without consuming depth are skipped and counted; global depth 8.",
     technique="bounded-exhaustive program enumeration x bounded-exhaustive conforming inputs on the implementation",
     design_ref="§4 C11")
 CLAIMED["C12"] = dict(
     category="exploration", engine="enum",
-    text="All byte strings of length <=2 and all strings of length <=4 (thorough 5) over a 25-byte alphabet (every delimiter, quotes, comment starts, newline, letter, digit, non-ASCII and invalid UTF-8) in 5 parser contexts; all token sequences of length <=4 (5) over 41 spellings x 3 separators; the complete single-edit neighbourhood of the corpus documents; 28 geometric families up to 2^14 (2^16). Oracle: no panic, terminates (step-count watchdog), errors or well-formed namespaces, every error position inside the input with start <= end, Error/ToAPI/ToProto do not panic, REST and gRPC syntax endpoints agree with Parse; LINEAR WORK measured without wall-clock: tools/vticks inserts a tick at every function entry and loop body of package schema (generated overlay); ticks <= 100*|s|+500 on every input and doubling ratio <= 2.5 on every family.",
+    text="All byte strings of length <=2 and all strings of length <=4 (thorough 5) over a 25-byte alphabet (every delimiter, quotes, comment starts, newline, letter, digit, non-ASCII and invalid UTF-8) in 5 parser contexts; all token sequences of length <=4 (5) over 41 spellings x 3 separators; the complete single-edit neighbourhood of the corpus documents; 28 geometric families up to 2^14 (2^16). Oracle: no panic, terminates (step-count watchdog), errors or well-formed namespaces, every error position inside the input with start <= end, Error/ToAPI/ToProto do not panic, REST and gRPC syntax endpoints agree with Parse; LINEAR WORK measured without wall-clock: tools/vticks inserts a tick at every function entry and loop body of package schema (generated overlay); ticks <= 100*|s|+500 on every input and doubling ratio <= 2.5 on every family. Runs of 1..64 adjacent one-rune tokens; a Parse that is permanently blocked (goroutine parked, no tick progress) is reported as non-termination; error-lifetime pairs: the errors of Parse(a) are rendered after Parse(b) ran on the same goroutine.",
     note="Hidden library costs inside a single call (e.g. fmt) are not counted; rendering n errors through the endpoints is quadratic in n (observed, not judged: the statement bounds parsing).",
     technique="bounded-exhaustive input enumeration with deterministic step counting (instrumented work counter) as the complexity oracle",
     design_ref="§4 C12")
 
 CLAIMED["C05"] = dict(
     category="fault_enumeration", engine="sqlfault",
-    text="55 write requests (REST create, REST PATCH / gRPC Transact with |I| in {0,1,2,3000,3001} x |D| in {0,1,100,101,201}, delete-by-query, Manager-level TransactRelationTuples; thorough adds |I| = 6001 and 7501, crossing the 15000-mapping chunk). For each, with N = the SQL statements of the fault-free request seen by the driver tap: (a) EVERY k in 1..N x {fail before executing, fail after executing, drop the connection}; (b) an invalid tuple / unknown namespace at every position (chunk boundaries +-1 for large batches); (c) REAL crash points: a worker subprocess on a file-backed database is SIGKILLed inside the driver before and after every statement k and the file is reopened by a fresh registry; (d) a reader on a second registry (same database, WAL and shared-cache variants) reads while the writer is paused at EVERY statement boundary, and every pair of boundaries for a two-read reader. Oracle: relationships after in {before, apply(I,D,before)}, = before when an error was reported; reader observations are the before- or the after-state and never go backwards.",
+    text="55 write requests (REST create, REST PATCH / gRPC Transact with |I| in {0,1,2,3000,3001} x |D| in {0,1,100,101,201}, delete-by-query, Manager-level TransactRelationTuples; thorough adds |I| = 6001 and 7501, crossing the 15000-mapping chunk). For each, with N = the SQL statements of the fault-free request seen by the driver tap: (a) EVERY k in 1..N x {fail before executing, fail after executing, drop the connection}; (b) an invalid tuple / unknown namespace at every position (chunk boundaries +-1 for large batches); (c) REAL crash points: a worker subprocess on a file-backed database is SIGKILLed inside the driver before and after every statement k and the file is reopened by a fresh registry; (d) a reader on a second registry (same database, WAL and shared-cache variants) reads while the writer is paused at EVERY statement boundary, and every pair of boundaries for a two-read reader. Oracle: relationships after in {before, apply(I,D,before)}, = before when an error was reported; reader observations are the before- or the after-state and never go backwards. (e) RETRY part: requests whose names were never seen by the database, attempt 1 rolled back by a fault at every statement k (before / after), then the same request retried and every written relationship looked up by name over REST - all-or-nothing includes the name mappings the request created (a fault after COMMIT ran is recognised by listing first).",
     note="SQLite only (the only engine in the sandbox): what keto contributes - one transaction around the whole request, reused by nested calls - is what is falsifiable here; an error injected after COMMIT executed is a lost acknowledgement (either state accepted).",
     technique="exhaustive fault-position, crash-point (real SIGKILL) and reader-schedule enumeration at SQL-statement granularity on the implementation",
     design_ref="§4 C05")
 CLAIMED["C09"] = dict(
     category="exploration", engine="enum",
-    text="Every root-connected tuple multiset of <=4 tuples (thorough 5: 48534 multisets) over 4 objects, 2 relations, 2 users up to renaming - chains, diamonds, cycles, self-loops, duplicates - in ALL sibling row orders (shard_id forced), plus fan-out families with 99/100/101/201 children, x 11 request/global depth combinations, through the expand engine, REST and gRPC. Oracles against an independent reachability model (h/refsem ExpandGraph): every edge is a stored tuple, a subject set is an inner node at most once, height <= effective depth, statement count within a stated bound (termination on cycles, step-count horizon), leaves subset of reach, leaves superset of everything within depth (weaker reading), and with depth not binding the subject-id leaves equal the subjects the check API allows.",
+    text="Every root-connected tuple multiset of <=4 tuples (thorough 5: 48534 multisets) over 4 objects, 2 relations, 2 users up to renaming - chains, diamonds, cycles, self-loops, duplicates - in ALL sibling row orders (shard_id forced), plus fan-out families with 99/100/101/201 children, x 11 request/global depth combinations, through the expand engine, REST and gRPC. Oracles against an independent reachability model (h/refsem ExpandGraph): every edge is a stored tuple, a subject set is an inner node at most once, height <= effective depth, statement count within a stated bound (termination on cycles, step-count horizon), leaves subset of reach, leaves superset of everything within depth (weaker reading), and with depth not binding the subject-id leaves equal the subjects the check API allows. Statement-fault pass: every SQL statement of an expansion fails once - the answer is an error or the fault-free tree, never a silently smaller tree.",
     note="Rewrite-free namespaces; SQLite only; the row-order dependent incompleteness (recorded findings KF-C09-1/2) is matched by a structural signature computed from the counterexample.",
     technique="bounded-exhaustive enumeration of graphs x row orders x depths against a reference reachability model",
     design_ref="§4 C09")
